@@ -32,7 +32,7 @@ def direct(c):
             if res != exp:
                 f = dict(summary=f'ds[{i}] = {res!r} but iteration yields {vals[i]!r} at that position (n={n})',
                          got_from_impl=repr(res), expected_by_spec=repr(exp), query=list(q))
-                if res[0] == 'err' and res[1][0] == 'EAssert' and 'items' in set(c.prog.ops()):
+                if res[0] == 'err' and res[1][0] in ('EAssert', 'ENotImpl') and 'items' in set(c.prog.ops()):
                     f['finding_id'] = 'F15'
                     f['summary'] = 'items() over duplicate keys: indexable is True but ds[i] raises AssertionError'
                 out.append(f)
@@ -41,9 +41,9 @@ def direct(c):
             if not (res[0] == 'err' and res[1][0] == 'EIndex'):
                 f = dict(summary=f'ds[{i}] outside [-{n},{n}) gave {res!r} instead of IndexError',
                          got_from_impl=repr(res), expected_by_spec='IndexError', query=list(q))
-                if res[0] == 'err' and res[1][0] == 'EAssert' and 'items' in set(c.prog.ops()):
+                if res[0] == 'err' and res[1][0] in ('EAssert', 'ENotImpl') and 'items' in set(c.prog.ops()):
                     f['finding_id'] = 'F15'
-                    f['summary'] = 'items() over duplicate keys: indexable is True but ds[i] raises AssertionError'
+                    f['summary'] = 'items() over duplicate / undefined keys: indexable is True but an integer index raises AssertionError / NotImplementedError (keys() is needed)'
                 out.append(f)
                 break
     return out
